@@ -23,7 +23,7 @@ for d in seeded/C??; do
                 seeded/C18/round4/patch2.diff) extra="C03";;
                 seeded/C04/round5/patch.diff) extra="C03";;
                 seeded/C06/round5/patch2.diff) extra="C13";;
-                seeded/C19/round5/patch.diff) continue;;
+                seeded/C19/round5/patch.diff|seeded/C06/round2/patch2.diff) continue;;  # superseded by fix V
             esac
             res=$(tools/mutlab.sh patch "$(pwd)/$sub/$p" $id $extra 2>&1 | grep -E "^==|PATCH DOES NOT" | cut -c1-260 | tr '\n' ' ')
             echo "$sub/$p $res" >> "$LOG"
